@@ -148,7 +148,15 @@ pub enum Op {
         tag: Option<Vec<u8>>,
         magic: i64,
     },
-    SetFnName { id: u32, name: String },
+    /// via: 0 `Module::set_fn_name`, 1 `functions.set_local_fn_name` (local functions), 2
+    /// `imports.set_fn_name(name, FunctionID)` (imports of the parsed module: function ID = rank
+    /// among the function imports)
+    SetFnName {
+        id: u32,
+        name: String,
+        #[serde(default)]
+        via: u8,
+    },
     ImportsSetName { imp: u32, name: String },
     AddGlobal { init: ConstE, ty: VT, mutable: bool, tag: Option<Vec<u8>> },
     AddImportedGlobal { module: String, name: String, ty: VT, mutable: bool, tag: Option<Vec<u8>> },
@@ -806,7 +814,15 @@ impl Model {
                 },
                 _ => false,
             },
-            Op::SetFnName { id, .. } => self.funcs.get(*id as usize).map_or(false, |f| !f.deleted),
+            Op::SetFnName { id, via, .. } => self.funcs.get(*id as usize).map_or(false, |f| {
+                !f.deleted
+                    && match via {
+                        0 => true,
+                        1 => matches!(f.kind, MFK::Local(_)),
+                        // still the import entry of the parsed module (not replaced and converted back)
+                        _ => *id < self.base.num_imp_funcs() && matches!(f.kind, MFK::Import { imp, .. } if (imp as usize) < self.base.imports.len()),
+                    }
+            }),
             Op::ImportsSetName { imp, .. } => self.imports.get(*imp as usize).map_or(false, |i| {
                 !i.deleted && matches!(i.spec.kind, ImpKind::Func(_)) && self.func_of_import(*imp).is_some()
             }),
@@ -966,7 +982,7 @@ impl Model {
                 f.rebodied = true;
                 Returned::None
             }
-            Op::SetFnName { id, name } => {
+            Op::SetFnName { id, name, .. } => {
                 let f = &mut self.funcs[*id as usize];
                 f.name = Some(name.clone());
                 f.name_known = true;
